@@ -632,6 +632,34 @@ func c08StmtForms() []string {
 	return out
 }
 
+// c08GotoForms: goto/label placements (valid and invalid: into the scope of a local, into a nested block, out of a
+// function, duplicate and unknown labels, labels at block ends, continue-style) × the blocks and locals AROUND them —
+// the diagnostics of the goto resolver index scope tables by counts taken from the enclosing function.
+func c08GotoForms() []string {
+	inners := []string{
+		"do goto l1; local b; ::l1:: print(b) end", "goto l1; local b; ::l1:: print(b)", "do goto l1; local b, c, d; ::l1:: print(b) end",
+		"do local z; goto l1; local b; ::l1:: print(b) end", "repeat goto l1; local b; ::l1:: until b", "goto l1; do local b; ::l1:: end",
+		"do goto l1 end local b ::l1:: print(b)", "::l1:: ::l1::", "do ::l1:: end ::l1::", "goto nowhere", "do goto l1; local b; ::l1:: end",
+		"goto l1; local b; ::l1::", "do local b; goto l1; ::l1:: print(b) end", "while x do goto l1; local b; ::l1:: b = 1 end",
+		"for j = 1, 2 do goto cont; local b; ::cont:: end", "for j = 1, 2 do goto cont; local b = j; print(b); ::cont:: ; end",
+		"goto l1; local function g() end; ::l1:: g()", "do goto l1; local function g() ::l1:: end end", "local function g() goto l1 end ::l1::",
+		"::l1:: do goto l1 end", "do do goto l1; local b; local c; ::l1:: print(c) end end", "if x then goto l1; local b; ::l1:: print(b) end",
+		"if x then goto l1 else local b; ::l1:: print(b) end", "goto l1; local b = function() return b end; ::l1:: return b",
+		"do goto l2; local b; ::l1:: ::l2:: print(b) end", "do goto l1; ::l0:: local b; ::l1:: print(b); goto l0 end",
+	}
+	outers := []string{"%s", "local a; %s", "local a, b2, c2; %s", "for i = 1, 3 do %s end", "for k, v in pairs({}) do %s end",
+		"function f(p, q) %s end", "function f(...) %s end", "local function f(p) local q; do local r; %s end end",
+		"while true do local w; %s; break end", "repeat local u; %s until true", "do local a; do local a2; do local a3; %s end end end",
+		"local t = {f = function(self, x2) %s end}", "return function() local a; return function() local a1, a2; %s end end"}
+	var out []string
+	for _, in := range inners {
+		for _, o := range outers {
+			out = append(out, strings.ReplaceAll(o, "%s", in))
+		}
+	}
+	return out
+}
+
 func init() { props["C08"] = runC08 }
 
 func runC08(run *Run) {
@@ -641,7 +669,7 @@ func runC08(run *Run) {
 		nBytes, nSoup, nMut, nProg, nTrunc, nNum, nFile = 150000, 150000, 120000, 6000, 300, 40000, 3000
 		deepSizes = []int{10, 199, 250, 2000, 10000}
 	}
-	run.Rule = "inputs: random bytes, token soup (valid and malformed lexemes incl. every blank/line-end/comment form), generated valid programs in 13 layouts each (canonical, minimal-separator, CRLF, CR, LFCR, random blanks+comments+semicolons, redundant parentheses, alternative literal spellings, all combined, and the two-byte-line-end layouts shifted so that a CR LF / LF CR pair straddles the scanner's 4096-byte read-ahead buffer), byte-level mutations and truncations of those, every prefix of selected programs, 5880 statement forms (expression form × statement wrapper × block context), numerals, nesting up to depth 10^4 (thorough; 2000 quick), LoadFile with '#' first lines, the repository's .lua files. Each input: real LoadString under recover+timeout (panic/timeout = violation), real token stream vs the Lean scanner model (exact incl. line/column/PNewLine/error), vs the Lua 5.1 lexical grammar (Spec); layouts of one program: instruction-identical protos modulo line tables and identical emit traces (Impl vs Impl). distinct = distinct op-kind skeletons of cases with >= 3 ops"
+	run.Rule = "inputs: random bytes, token soup (valid and malformed lexemes incl. every blank/line-end/comment form), generated valid programs in 13 layouts each (canonical, minimal-separator, CRLF, CR, LFCR, random blanks+comments+semicolons, redundant parentheses, alternative literal spellings, all combined, and the two-byte-line-end layouts shifted so that a CR LF / LF CR pair straddles the scanner's 4096-byte read-ahead buffer), byte-level mutations and truncations of those, every prefix of selected programs, 5880 statement forms (expression form × statement wrapper × block context), 338 goto/label forms (placement × surrounding blocks and locals), numerals, nesting up to depth 10^4 (thorough; 2000 quick), LoadFile with '#' first lines, the repository's .lua files. Each input: real LoadString under recover+timeout (panic/timeout = violation), real token stream vs the Lean scanner model (exact incl. line/column/PNewLine/error), vs the Lua 5.1 lexical grammar (Spec); layouts of one program: instruction-identical protos modulo line tables and identical emit traces (Impl vs Impl). distinct = distinct op-kind skeletons of cases with >= 3 ops"
 	run.Assume = []string{
 		"bufio.Reader: ReadByte/UnreadByte deliver the bytes of the input in order (modelled as a list of bytes)",
 		"the goyacc table driver and the compiler are not modelled: their outcome is observed on the real code only (panic/timeout detection, layout invariance Impl vs Impl)",
@@ -669,6 +697,9 @@ func runC08(run *Run) {
 	idx = 100000
 	for _, s := range c08StmtForms() {
 		add([]Op{{Args: []string{"b", hexOrDash([]byte(s))}}}, "stmtform")
+	}
+	for _, s := range c08GotoForms() {
+		add([]Op{{Args: []string{"b", hexOrDash([]byte(s))}}}, "gotoform")
 	}
 	idx = len(c08Corpus)
 	idx = 1000
